@@ -3,10 +3,11 @@ CONSTANTS
   CheckTrailer = TRUE
   UpdateWatchdog = TRUE
   WaitOrigins = FALSE
+  CallerCtx = TRUE
   Bound = 1
   NOrigs = {0, 1}
   Intfs = {"keep", "recursive"}
   Gen = FALSE
 INVARIANTS TypeOK InvSuccessSound InvFailureReported InvNoRedundant InvUnpinIdempotent
-  InvStallGivesUp InvOriginsBestEffort InvUpdateOnlyIfRecursive InvSourceKept
+  InvStallGivesUp InvOriginsBestEffort InvCallReturns InvCancelPropagates InvUpdateOnlyIfRecursive InvSourceKept
 PROPERTY Termination
